@@ -219,6 +219,7 @@ def main(argv=None):
         bounded = mod.bounded_checks(args.tier, seed, repo)
     known = load_known(prop)
     canaries = {s.name for s in scens if getattr(s.fn, 'canary', False)}
+    cvc5_q = 0
     n_obl = n_dis = n_undec = 0
     failures = []
     undecided = []
@@ -236,6 +237,7 @@ def main(argv=None):
         hashes.update(r.get('hashes', {}))
         solver_s += r.get('solver_s', 0)
         queries += r.get('queries', 0)
+        cvc5_q += r.get('cvc5_queries', 0)
         if r.get('crash'):
             crashes.append((r['scenario'], pstr(r['params']), r['crash']))
             continue
@@ -365,7 +367,7 @@ def main(argv=None):
             'source_sha256': {os.path.relpath(k, repo): v[:16] for k, v in sorted(hashes.items())},
             'scenario_instances': len(results), 'paths': sum(r.get('paths', 0) for r in results),
             'obligations_by_kind': {k: {'generated': v[0], 'discharged': v[1]} for k, v in sorted(by_kind.items())},
-            'solver_s': round(solver_s, 2), 'solver_queries': queries, 'back_end': 'z3 ' + _z3v(),
+            'solver_s': round(solver_s, 2), 'solver_queries': queries, 'back_end': 'z3 ' + _z3v() + ('; cvc5 1.0.3 for %d queries z3 left unknown' % cvc5_q if cvc5_q else '; cvc5 1.0.3 stands by for queries z3 leaves unknown (0 in this run)'),
             'canaries_refuted': sorted(cn for cn in canaries if cn not in bad_canaries),
             'samples': samples + [{'bounded_case': x} for b in bounded for x in (b.get('samples') or [])[:3]],
             'bounded_standins': [{k: v for k, v in b.items() if k != 'failures'} for b in bounded],
